@@ -30,6 +30,13 @@ type Solver struct {
 	MaxTime   time.Duration
 	logf      *os.File
 	dead      bool
+	// second solver fed with the same commands; every mirrorEvery-th obligation
+	// query is answered by both and the answers are compared
+	mirror      *Solver
+	mirrorEvery int
+	mirrorCount int
+	Rechecked   int
+	Disagreed   int
 }
 
 func NewSolver(kind string, timeoutMs int) (*Solver, error) {
@@ -66,6 +73,10 @@ func NewSolver(kind string, timeoutMs int) (*Solver, error) {
 }
 
 func (s *Solver) send(str string) {
+	if s.mirror != nil && !strings.HasPrefix(str, "(check-sat") && !strings.HasPrefix(str, "(get-value") &&
+		!strings.HasPrefix(str, "(reset") && !strings.HasPrefix(str, "(set-") {
+		s.mirror.send(str)
+	}
 	if s.dead {
 		return
 	}
@@ -78,6 +89,9 @@ func (s *Solver) send(str string) {
 }
 
 func (s *Solver) Close() {
+	if s.mirror != nil {
+		s.mirror.Close()
+	}
 	if s.cmd != nil {
 		s.send("(exit)\n")
 		s.in.Close()
@@ -92,6 +106,9 @@ func (s *Solver) Close() {
 }
 
 func (s *Solver) Reset() {
+	if s.mirror != nil {
+		s.mirror.Reset()
+	}
 	s.defined = map[int]bool{}
 	s.send("(reset)\n")
 	if s.kind == "cvc5" {
@@ -297,4 +314,44 @@ func tokenize(s string) []string {
 	}
 	flush()
 	return toks
+}
+
+
+// CheckObligation is Check for a proof obligation: every mirrorEvery-th call is
+// also answered by the second solver; a disagreement makes the answer unknown.
+func (s *Solver) CheckObligation(lits ...Lit) string {
+	ans := s.Check(lits...)
+	if s.mirror == nil || s.mirror.dead {
+		return ans
+	}
+	s.mirrorCount++
+	if s.mirrorEvery > 1 && s.mirrorCount%s.mirrorEvery != 0 {
+		return ans
+	}
+	var sb strings.Builder
+	if len(lits) == 0 {
+		sb.WriteString("(check-sat)\n")
+	} else {
+		sb.WriteString("(check-sat-assuming (")
+		for i, l := range lits {
+			if i > 0 {
+				sb.WriteString(" ")
+			}
+			if l.neg {
+				sb.WriteString("(not " + l.t.sym() + ")")
+			} else {
+				sb.WriteString(l.t.sym())
+			}
+		}
+		sb.WriteString("))\n")
+	}
+	s.mirror.send(sb.String())
+	other := s.mirror.readAnswer()
+	s.Rechecked++
+	if other != "unknown" && ans != "unknown" && other != ans {
+		s.Disagreed++
+		fmt.Fprintf(os.Stderr, "SOLVER-DISAGREEMENT %s=%s %s=%s\n", s.kind, ans, s.mirror.kind, other)
+		return "unknown"
+	}
+	return ans
 }
